@@ -21,7 +21,8 @@ FC == 1   FN == 2   FP == 4   F3 == 8   FH == 16   F5 == 32   FZ == 64   FS == 1
 \* ---- environment -----------------------------------------------------------
 \* Memory and port contents are a fixed pseudo-random function of a seed, overridden by the
 \* sparse list env.poke / env.io of <<address, value>> pairs (first match wins).
-Base(seed, a) == ((a + seed) * 167 + (a \div 256) * 59 + 13) % 256
+\* (periodic in 16K so that the same contents can be laid out in every ROM page and RAM bank)
+Base(seed, a) == LET o == a % 16384 IN ((o + seed) * 167 + (o \div 256) * 59 + 13) % 256
 IoBase(seed, p) == ((p + seed) * 131 + (p \div 256) * 37 + 7) % 256
 
 Lookup(seq, a, dflt) ==
@@ -522,6 +523,11 @@ Exec(s, env) ==
 \* Returns the state after the acknowledge, its bus operations (canonical order: pushes, bus byte,
 \* vector reads; the waiting T-states are given as one "int" entry because only their total is
 \* documented) and the memory overlay of the two bytes pushed.
+\* bytes pushed by an acknowledge are visible to the rest of the call - unless the machine says that
+\* the low part of the address space is ROM (env.romtop), where writes have no effect
+Overlay(env, wr) ==
+    LET w == IF "romtop" \in DOMAIN env THEN SelectSeq(wr, LAMBDA p : p[1] >= env.romtop) ELSE wr
+    IN [env EXCEPT !.poke = w \o env.poke]
 Unhalt(s) == IF s.halted = 1 THEN [s EXCEPT !.halted = 0, !.pc = W16(s.pc + 1)] ELSE s
 
 NmiAck(s) ==
@@ -536,7 +542,7 @@ IntAck(s, env) ==
         base == [u EXCEPT !.iff1 = 0, !.iff2 = 0, !.sp = ps.sp, !.r = IncR(u.r, 1), !.q = 0]
     IN IF s.im = 2
        THEN LET va == Mk16(s.i, env.busbyte)
-                env2 == [env EXCEPT !.poke = wr \o env.poke]
+                env2 == Overlay(env, wr)
                 lo == Mem(env2, va)   hi == Mem(env2, W16(va + 1))   t == Mk16(hi, lo)
             IN [s |-> [base EXCEPT !.pc = t, !.wz = t],
                 ops |-> << <<"int", 0, 7>> >> \o ps.ops \o << <<"iack", 0, env.busbyte>> >>
@@ -550,7 +556,7 @@ IntAck(s, env) ==
 \* statement constrains only maskable interrupts (both accepting and postponing are allowed).
 NoAck(s) == [s |-> s, ops |-> <<>>, wr |-> <<>>]
 Finish(a, env, kind) ==
-    LET env2 == [env EXCEPT !.poke = a.wr \o env.poke]
+    LET env2 == Overlay(env, a.wr)
         e == Exec(a.s, env2)
     IN [s |-> e.s, ack |-> a.ops, ops |-> e.ops, qfree |-> e.qfree, acked |-> kind, mid |-> a.s]
 
